@@ -88,7 +88,7 @@ def impl_oracle(c):
         return "value-and-error", "%s: %s" % (op, o["note"])
     if op == "tojson" and o.get("ok") and o.get("out") is None and not o.get("outhex"):
         return "neither", "ToJSON returned neither output nor error"
-    if c["stream"] in ("prefix", "cut") and op in ("unmarshal", "series"):
+    if c["stream"] in ("prefix", "cut", "corpus") and op in ("unmarshal", "series"):
         data = bytes.fromhex(c["in"])
         if op == "series" and c["stream"] == "cut":
             pass
